@@ -105,19 +105,28 @@ MUTANTS = [
     ("c20_no_copy_tensors", "C20", "xitorch/_core/packer.py",
      "                tensors = copy(tensors)\n", "                tensors = tensors\n", 1),
     ("c20_no_memo", "C20", "xitorch/_core/packer.py",
-     "            memo = copy(self._tensor_memo)\n            new_obj = deepcopy(self._obj, memo)\n",
+     "            memo = self._get_tensor_memo()\n            new_obj = deepcopy(self._obj, memo)\n",
      "            new_obj = deepcopy(self._obj)\n", 1),
     ("c20_shared_shape_cache", "C20", "xitorch/_core/packer.py",
      "            self._tensor_shapes = [p.shape for p in params_tensors]\n",
      "            self._tensor_shapes = [p.shape for p in params_tensors]\n            self._unique_tensor_shapes = self._tensor_shapes\n", 1),
     ("c20_zero_tensor_revert", "C20", "xitorch/_core/packer.py",
-     "            if len(tensor_shapes) == 0:\n                return deepcopy(self._obj, copy(self._tensor_memo))\n",
+     "            if len(tensor_shapes) == 0:\n                return deepcopy(self._obj, self._get_tensor_memo())\n",
      "            if len(tensor_shapes) == 0:\n                return self._obj\n", 1),
     ("c20_no_shape_check", "C20", "xitorch/_core/packer.py",
      "                if tens.shape != shape:\n", "                if False:\n", 1),
     ("c20_init_no_deepcopy", "C20", "xitorch/_core/packer.py",
      "        self._obj = deepcopy(obj, memo)\n", "        self._obj = obj\n", 1),
+    ("c20_numels_with_shapes_revert", "C20", "xitorch/_core/packer.py",      # revert of 350a3d7
+     "            self._unique_tensor_numels = [p.numel() for p in params_tensors]\n            self._unique_tensor_numel_tot = sum(self._unique_tensor_numels)\n        else:\n",
+     "        else:\n", 1),
     # ---------------- C11
+    ("c11_shape_alias_revert", "C11", "xitorch/_core/linop.py",              # revert of cf53caa
+     "        self._shape = shape if isinstance(shape, tuple) else tuple(shape)\n", "        self._shape = shape\n", 1),
+    ("c11_nondiff_adjoint_zeros_revert", "C11", "xitorch/_core/linop.py",    # revert of 6e165cd
+     "            if torch.count_nonzero(yprobe) > 0:\n", "            if False:\n", 1),
+    ("c17_cache_under_grad_revert", "C17", "xitorch/grad/jachess.py",        # revert of c674613
+     "        if torch.is_grad_enabled():\n            return False\n", "", 1),
     ("c11_cache_revert", "C11", "xitorch/_core/linop.py",
      "        if not cls.__dict__.get(\"_implementation_checked\", False):\n",
      "        if not cls._implementation_checked:\n", 1),
@@ -151,8 +160,8 @@ MUTANTS = [
      "        if self.shape[-1] == self.shape[-2]:\n            return self.mm(x)\n", 1),
     # ---------------- C17
     ("c17_cache_always_valid", "C17", "xitorch/grad/jachess.py",
-     "    def __param_tensors_unchanged(self):\n        return [id(param)",
-     "    def __param_tensors_unchanged(self):\n        return True or [id(param)", 1),
+     "            return False\n        return [id(param)",
+     "            return False\n        return True or [id(param)", 1),
     ("c17_objparams_alias_revert", "C17", "xitorch/grad/jachess.py",
      "        self.objparams = list(fcn.objparams())\n", "        self.objparams = fcn.objparams()\n", 0),
     # (equivalent since ced3e3e: objparams() builds a new list on every call, so there is nothing left to alias)
@@ -231,8 +240,8 @@ MUTANTS = [
     ("c19_nofa_ctx_plain_note", "C19", "xitorch/linalg/solve.py",
      "        ctx.A = A\n", "        ctx.A = A\n        ctx.note = 'kept for debugging'\n", 0),
     ("c17_nofa_never_cache", "C17", "xitorch/grad/jachess.py",
-     "    def __param_tensors_unchanged(self):\n        return [id(param)",
-     "    def __param_tensors_unchanged(self):\n        return False and [id(param)", 0),
+     "            return False\n        return [id(param)",
+     "            return False\n        return False and [id(param)", 0),
     # ---------------- reverts of the later repairs
     ("c10_stale_restore_revert", "C10", "xitorch/_core/pure_function.py",
      "        cur_allobjparams = self._get_all_obj_params_init()\n",
